@@ -1,6 +1,10 @@
 package genql
 
-import verif "github.com/vedadiyan/genql/zz_verif"
+import (
+	"math"
+
+	verif "github.com/vedadiyan/genql/zz_verif"
+)
 
 // numTable builds {"t": [ {a: x0}, ... ]} with n symbolic non-NaN cells.
 func numTable(n int, cols ...string) (Map, []Map) {
@@ -24,8 +28,10 @@ func numTable(n int, cols ...string) (Map, []Map) {
 func H_C05_window() {
 	n := verif.Choose("rows", 4)
 	doc, rows := numTable(n, "a")
-	lim := verif.IntRange("limit", 0, 1<<31-1)
-	off := verif.IntRange("offset", 0, 1<<31-1)
+	// any non-negative int: LIMIT 9223372036854775807 is MySQL's idiom for
+	// "all rows from OFFSET on"
+	lim := verif.IntRange("limit", 0, math.MaxInt64)
+	off := verif.IntRange("offset", 0, math.MaxInt64)
 	q, err := New(doc, verif.SQL("SELECT a FROM t LIMIT ? OFFSET ?", lim, off))
 	verif.Assert(err == nil, "new-no-error")
 	if err != nil {
@@ -225,8 +231,8 @@ func H_C05_window_sorted() {
 	spelling := verif.Choose("spelling", 2)
 	doc, rows := numTable(n, "a")
 	c := verif.F64("c")
-	lim := verif.IntRange("limit", 0, 1<<31-1)
-	off := verif.IntRange("offset", 0, 1<<31-1)
+	lim := verif.IntRange("limit", 0, math.MaxInt64)
+	off := verif.IntRange("offset", 0, math.MaxInt64)
 	var sql string
 	if spelling == 0 {
 		sql = verif.SQL("SELECT a FROM t WHERE a > ? ORDER BY a LIMIT ? OFFSET ?", c, lim, off)
@@ -268,8 +274,8 @@ func H_C05_window_distinct() {
 	for _, r := range rows {
 		verif.Assume(verif.NotNegZero(f64of(r["a"])))
 	}
-	lim := verif.IntRange("limit", 0, 1<<31-1)
-	off := verif.IntRange("offset", 0, 1<<31-1)
+	lim := verif.IntRange("limit", 0, math.MaxInt64)
+	off := verif.IntRange("offset", 0, math.MaxInt64)
 	sql := "SELECT DISTINCT a FROM t"
 	if ordered == 1 {
 		sql += " ORDER BY a"
